@@ -1,23 +1,38 @@
-"""Probe programs for C33: one gated construct (or none) placed in a drawn context."""
+"""Probe programs for C33: one gated construct (or none) placed in a drawn context,
+optionally with a *fault*: a second, ordinary mistake planted before / inside / after the
+gated construct so that the check fails part-way through the pipeline (CFG construction,
+type checking, linearity checking) with a legitimate GuppyError."""
 from __future__ import annotations
 
-# construct -> (statements using it inside a body that has `a: int`, `q: qubit` free?, helpers)
+_TF = ("@guppy\ndef tf(v: int) -> int:\n    return v\n\n"
+       "@guppy\ndef tg(v: bool) -> bool:\n    return v\n\n")
+
+# kind: (helper definitions at module level, body statements).  A body line consisting of
+# "{IN}" (after its indentation) marks where an `inside` fault goes; without a fault it is
+# replaced by `pass`.
 CONSTRUCTS = {
-    # kind: (helper definitions at module level, body statements, needs)
     "none": ("", ["t0 = a + 1"]),
     "list_lit": ("", ["xs = [a, 2, 3]"]),
     "list_comp": ("", ["xs = [i + a for i in range(3)]"]),
+    "list_comp_nested": ("", ["xs = [i + j for i in range(2) for j in range(a)]"]),
     "list_ann_local": ("", ["xs: list[int] = [a]"]),
-    "tensor_syn": ("@guppy\ndef tf(v: int) -> int:\n    return v\n\n@guppy\ndef tg(v: bool) -> bool:\n    return v\n\n",
-                   ["t1, t2 = (tf, tg)(a, True)"]),
-    "tensor_chk": ("@guppy\ndef tf(v: int) -> int:\n    return v\n\n@guppy\ndef tg(v: bool) -> bool:\n    return v\n\n",
-                   ["t3: tuple[int, bool] = (tf, tg)(a, True)"]),
-    "closure": ("", ["def inner(b: int) -> int:", "    return a + b", "t4 = inner(1)"]),
+    "list_arg": ("@guppy.declare\ndef la(xs: list[int]) -> None: ...\n\n", ["la([a, 1])"]),
+    "tensor_syn": (_TF, ["t1, t2 = (tf, tg)(a, True)"]),
+    "tensor_chk": (_TF, ["t3: tuple[int, bool] = (tf, tg)(a, True)"]),
+    "tensor_var": (_TF, ["ft = (tf, tg)", "t6, t7 = ft(a, False)"]),
+    "closure": ("", ["def inner(b: int) -> int:", "    {IN}", "    return a + b", "t4 = inner(1)"]),
     "closure2": ("", ["def outer(b: int) -> int:", "    def inner2(c: int) -> int:",
-                      "        return b + c", "    return inner2(b)", "t5 = outer(a)"]),
-    "mod_dagger": ("", ["with dagger:", "    pass"]),
-    "mod_control": ("", ["qc = qubit()", "with control(qc):", "    pass", "discard(qc)"]),
-    "mod_power": ("", ["with power(2):", "    pass"]),
+                      "        {IN}", "        return b + c", "    return inner2(b)", "t5 = outer(a)"]),
+    "closure_branch": ("", ["def innerb(b: int) -> int:", "    if b > 0:", "        return b",
+                            "    {IN}", "    return a", "t8 = innerb(1)"]),
+    "mod_dagger": ("", ["with dagger:", "    {IN}"]),
+    "mod_control": ("", ["qc = qubit()", "with control(qc):", "    {IN}", "discard(qc)"]),
+    "mod_power": ("", ["with power(2):", "    {IN}"]),
+    "mod_nested": ("", ["qc = qubit()", "with control(qc):", "    with dagger:", "        {IN}",
+                        "discard(qc)"]),
+    "mod_multi": ("", ["qc = qubit()", "with control(qc), dagger:", "    {IN}", "discard(qc)"]),
+    "mod_gate": ("", ["qc = qubit()", "qt = qubit()", "with control(qc):", "    {IN}",
+                      "    h(qt)", "discard(qc)", "discard(qt)"]),
 }
 # signature-level constructs (the construct is in the signature of a function)
 SIG_CONSTRUCTS = {
@@ -25,9 +40,25 @@ SIG_CONSTRUCTS = {
     "list_ann_ret": "@guppy.declare\ndef lr() -> list[int]: ...\n\n",
     "list_ann_field": "@guppy.struct\nclass SL:\n    xs: list[int]\n    n: int\n\n@guppy.declare\ndef lf(s: SL) -> int: ...\n\n",
     "list_ann_nested_sig": "@guppy\ndef lns(a: int) -> int:\n    def inner(xs: list[int]) -> int:\n        return 1\n    return a\n\n",
+    "list_ann_generic_arg": "@guppy.declare\ndef lg(xs: tuple[list[int], int]) -> None: ...\n\n",
+    "list_ann_callable": "@guppy.declare\ndef lc(f: Callable[[list[int]], int]) -> None: ...\n\n",
 }
+_SIG_REF = {"list_ann_param": "lp", "list_ann_ret": "lr", "list_ann_field": "lf",
+            "list_ann_nested_sig": "lns", "list_ann_generic_arg": "lg", "list_ann_callable": "lc"}
 UNGATED = {"none"}
 CONTEXTS = ("top", "in_if", "in_while", "in_for", "in_nested_fn", "in_callee", "in_method")
+
+# the "fault": an ordinary mistake, by the pipeline stage at which it is reported
+FAULTS = {
+    "unsupported_stmt": ["import os"],                   # CFG construction
+    "badmod": ["with nomod:", "    pass"],                # CFG construction (modifier handling)
+    "withas": ["with dagger as dd:", "    pass"],         # CFG construction (modifier handling)
+    "ret_in_with": ["with dagger:", "    return a"],      # CFG construction (block validation)
+    "undef": ["zz = undefined_zz + 1"],                   # type checking
+    "type": ["zt: bool = 1.5"],                           # type checking
+    "leak": ["ql = qubit()"],                             # linearity checking
+}
+POSITIONS = ("before", "after", "inside")
 
 MOD_PRELUDE = "dagger = object()\ncontrol = object()\npower = object()\n\n"
 
@@ -36,17 +67,37 @@ def indent(lines, n):
     return [" " * n + l for l in lines]
 
 
-def program(kind: str, ctx: str) -> str:
-    """Source of a module defining `main` (entry for check) using `kind` in `ctx`."""
-    src = MOD_PRELUDE
+def has_inside(kind: str) -> bool:
+    return kind in CONSTRUCTS and any(l.strip() == "{IN}" for l in CONSTRUCTS[kind][1])
+
+
+def _body(kind: str, fault) -> tuple[str, list[str]]:
     if kind in SIG_CONSTRUCTS:
-        src += SIG_CONSTRUCTS[kind]
-        # the declared function is only *referenced* from the context
-        body = ["fref = " + {"list_ann_param": "lp", "list_ann_ret": "lr",
-                             "list_ann_field": "lf", "list_ann_nested_sig": "lns"}[kind]]
-        helpers = ""
+        helpers, body = SIG_CONSTRUCTS[kind], ["fref = " + _SIG_REF[kind]]
     else:
         helpers, body = CONSTRUCTS[kind]
+    fk, pos = fault if fault else (None, None)
+    if pos == "inside" and not has_inside(kind):
+        pos = "after"
+    out = []
+    if pos == "before":
+        out += FAULTS[fk]
+    for l in body:
+        if l.strip() == "{IN}":
+            pad = len(l) - len(l.lstrip())
+            out += indent(FAULTS[fk], pad) if pos == "inside" else [" " * pad + "pass"]
+        else:
+            out.append(l)
+    if pos == "after":
+        out += FAULTS[fk]
+    return helpers, out
+
+
+def program(kind: str, ctx: str, fault=None) -> str:
+    """Source of a module defining `main` (entry for check) using `kind` in `ctx`;
+    `fault` = (fault kind, position) or None."""
+    src = MOD_PRELUDE
+    helpers, body = _body(kind, fault)
     src += helpers
     if ctx == "top":
         lines = body
@@ -75,3 +126,17 @@ def program(kind: str, ctx: str) -> str:
 
 
 ALL_KINDS = tuple(CONSTRUCTS) + tuple(SIG_CONSTRUCTS)
+
+# (kind, ctx, fault kind, position) combinations that are NOT used, with the reason;
+# filled from bin/c33_table.py runs on the unchanged tree (see DESIGN.md, C33).
+EXCLUDED: dict[tuple, str] = {}
+
+
+def usable(kind: str, ctx: str, fault) -> bool:
+    if fault is None:
+        return (kind, ctx, None, None) not in EXCLUDED
+    fk, pos = fault
+    if pos == "inside" and not has_inside(kind):
+        pos = "after"
+    return (kind, ctx, fk, pos) not in EXCLUDED and (kind, ctx, fk, "*") not in EXCLUDED \
+        and (kind, "*", fk, pos) not in EXCLUDED
